@@ -496,6 +496,7 @@ def parse_sim_traces(prefix_dir, prefix):
         if not fn.startswith(os.path.basename(prefix)):
             continue
         txt = open(os.path.join(prefix_dir, fn)).read()
+        txt = "\n".join(l for l in txt.splitlines() if not l.startswith("\\*"))
         states = []
         for m in re.finditer(r"STATE_\d+ ==\s*\n(.*?)(?=\n\s*\nSTATE_|\n=+|\Z)", txt, re.S):
             states.append(parse_state(m.group(1)))
